@@ -1,3 +1,4 @@
+\* C20 quick (the check generates the same text: checks/C20.py cfg_text)
 SPECIFICATION Spec
 CONSTANTS
   MaxT = 5
